@@ -77,6 +77,8 @@ def tables(tier):
          "hb31_nofault": b(Faults=False, MaxRun=3, NT=6),
          # two failures in one rung: fewer valid results than slots in the next rung
          "cust_2f": b(SysName="cust", NT=5, Vals={0, 1}, MaxFaults=2, MaxRun=3),
+         # trials that report "not a number" without failing: ranked last, promoted only to fill a rung
+         "cust_nan": b(SysName="cust", Vals={0, 1}, WithNaN=True, Faults=False),
          # Differential Evolution Hyperband on the same bracket manager (pause / resume only in the very first bracket)
          "de31": b(SysName="de31", NT=6, DE=True, Vals={0, 1}), "de31_nopr_max": b(SysName="de31", NT=6, DE=True, PR=False, IsMin=False, MRA=False, Vals={0, 1}),
          "de321": b(SysName="de321", NT=7, DE=True, Vals={0, 1}, Faults=False),
@@ -121,7 +123,11 @@ def campaign_c20(rep, tier, seed):
     total = {}
     for name, c in {"hb31": S.base(), "cust_max": S.base(SysName="cust", Vals={0, 1, 2}, IsMin=False, Faults=False),
                     "hb421_max": S.base(SysName="hb421", NT=6, Vals={0, 1, 2}, IsMin=False, MRA=False),
-                    "cust": S.base(SysName="cust", Vals={0, 1})}.items():
+                    "cust": S.base(SysName="cust", Vals={0, 1}),
+                    # trials that report "not a number" without failing rank last like failed ones; with fewer valid results
+                    # than slots of the next rung some of them are promoted, and these must not be declared removable
+                    "cust_nan": S.base(SysName="cust", Vals={0}, WithNaN=True, Faults=False),
+                    "hb421_nan_max": S.base(SysName="hb421", NT=6, Vals={1}, WithNaN=True, IsMin=False, Faults=False)}.items():
         r = S.run_mc(c, ["RemovableOnlyNonPromoted"])
         rep.model(f"SyncHB_MC[{name}]", r)
         if r.violated:
